@@ -36,6 +36,11 @@ def expand(case):
         n = int(f[3])
         for i in range(1 << (8 * n)):
             yield "%s\t%s\t%s" % (kind, f[1], (pre + (("%0*x" % (2 * n, i)) if n else "")) or "-")
+    elif k == "enum_cf_all":
+        body = "" if f[2] == "-" else f[2]
+        for c in range(256):
+            for i in range(256):
+                yield "enum\t%s\t%02x%02x%02x%s" % (f[1], c, i, len(body) // 2, body)
     elif k in ("dec_trunc", "enum_trunc"):
         kind = "dec" if k == "dec_trunc" else "enum"
         h = "" if f[2] == "-" else f[2]
@@ -56,6 +61,8 @@ def n_outputs(case):
     k = f[0]
     if k in ("dec_all", "enum_all"):
         return 1 << (8 * int(f[3]))
+    if k == "enum_cf_all":
+        return 65536
     h = 0 if len(f) < 3 or f[2] == "-" else len(f[2]) // 2
     if k in ("dec_trunc", "enum_trunc"):
         return h
